@@ -209,3 +209,37 @@ Section Exec.
 
   Definition cmr_base (b : wbody) (hv : pyval) : res pyval := cmr_base_core (snd (strip_guard b)) hv.
 End Exec.
+
+(* ------------------------------------------------------------------ histories of wrapper calls *)
+
+(* one call of a wrapper method as it happens on the implementation: the field, the translated body of the method,
+   the base type's behaviour for THIS call's arguments (oracles), the content of the wrapper object the method is
+   called on and whether that object is the one the instance holds *)
+Record wcall := {
+  wc_field : pystr;
+  wc_kind : N;
+  wc_meth : pystr;
+  wc_body : wbody;
+  wc_base : pystr -> pyval -> res pyval;
+  wc_partial : pystr -> pyval -> pyval;
+  wc_handle : pyval;
+  wc_live : bool }.
+
+Section Calls.
+  Variable re_match : N -> pystr -> bool.
+  Variable e : env.
+  Variable c : classdef.
+
+  Definition call_exec (a : attrs) (k : wcall) : wst * outcome :=
+    wexec re_match e (wc_base k) (wc_partial k) c (wc_field k) (wstart a (wc_handle k) (wc_live k)) (wc_body k).
+
+  (* the instance after a sequence of wrapper calls, statement-level semantics *)
+  Definition run_calls (a : attrs) (ks : list wcall) : attrs :=
+    fold_left (fun st k => w_inst (fst (call_exec st k))) ks a.
+
+  (* the coarse operation a call stands for *)
+  Definition call_mop (k : wcall) : mop :=
+    WrapMut (wc_field k) (classify (wc_kind k) (wc_meth k) (wc_body k)) (cmr_base (wc_base k) (wc_body k) (wc_handle k)).
+
+  Definition call_shape_safe (k : wcall) : bool := shape_safe (classify (wc_kind k) (wc_meth k) (wc_body k)).
+End Calls.
